@@ -650,6 +650,38 @@ pub fn case(seed: u64, st: &mut Stats) {
             }
         }
     }
+    // "help because nothing was given" is an error outcome, not a help request: with
+    // arg_required_else_help a line without arguments at that level goes to stderr with code 2
+    if rng.chance(1, 3) {
+        let mut spec3 = spec.clone();
+        spec3.set(Setting::ArgRequiredElseHelp);
+        for s in spec3.subs.iter_mut() {
+            s.set(Setting::ArgRequiredElseHelp);
+        }
+        if let Ok(cmd3) = gate(&spec3) {
+            let mut lines: Vec<Vec<OsString>> = vec![vec!["prog".into()], vec!["prog".into(), "--".into()]];
+            for s in &spec3.subs {
+                lines.push(vec!["prog".into(), s.name.clone().into()]);
+            }
+            for argv in lines {
+                st.eval();
+                match catch(|| cmd3.clone().try_get_matches_from(argv.clone())) {
+                    Err(p) => st.violation(format!("panic:parse@{}", p.loc), format!("{} | argv={}", p.msg, show_argv(&argv))),
+                    Ok(Err(e)) => {
+                        if e.kind() == K::DisplayHelpOnMissingArgumentOrSubcommand {
+                            st.count("else-help.shown");
+                        }
+                        check_error_contract(st, &spec3, &argv, &e);
+                    }
+                    Ok(Ok(_)) => {
+                        if argv.len() == 1 {
+                            st.violation("c10:else-help-missing", format!("an empty line is accepted although arg_required_else_help is set | spec={}", brief(&spec3)));
+                        }
+                    }
+                }
+            }
+        }
+    }
     // (c)/(d) over hostile lines as well: suggestions and the exit contract for every error
     for _ in 0..3 {
         let argv = crate::gen::hostile_argv(&mut rng, &spec, 8);
